@@ -3,6 +3,7 @@ package checks
 import (
 	"bytes"
 	"fmt"
+	"reflect"
 
 	"verif/internal/gen"
 	"verif/internal/schema"
@@ -182,6 +183,45 @@ func c01(e *Env) {
 		feats.mu.Unlock()
 	})
 	_ = keysForced
+	// ---- round trips of texts that collide under a common hash (CRC-32, FNV-1a-32, FNV-1a-64), one after the
+	// other in one process: a codec that recognises "a text it has seen before" by a hash returns the wrong one.
+	if e.Only == "" {
+		pairs := collidingPairs(e.Seed)
+		var adv int64
+		for _, t := range types {
+			ff := collisionField(t)
+			if ff == nil {
+				continue
+			}
+			base := e.Gen(&gen.Opts{}, t.QName, "collision").Value(t)
+			for pi, pr := range pairs {
+				if len(pr[0]) > ff.N {
+					continue
+				}
+				for k, txt := range []string{pr[0], pr[1], pr[0]} {
+					v := val.Clone(base)
+					reflect.ValueOf(v).Elem().FieldByName(ff.Name).SetString(txt)
+					w, err, p := EncodeFresh(val.Clone(v))
+					if err != nil || p != nil {
+						break
+					}
+					w = append([]byte(nil), w...)
+					d := e.C.New[t.QName]()
+					derr, dp := LibDecode(d, bytes.NewBuffer(w))
+					adv++
+					if derr != nil || dp != nil {
+						break // the plain cases above report this
+					}
+					if diff := val.Equal(withCorrectComputed(t, v, w), d); diff != "" {
+						r.Violate("C01/mismatch-after-colliding-text/"+t.QName, "C01/mismatch-after-colliding-text/"+t.QName, map[string]any{"type": t.QName, "field": ff.Name, "pair": pi, "step": k, "text": txt, "round_tripped_before_in_this_process": []string{pr[0], pr[1]}, "first_difference": diff, "note": "the two texts have equal length and equal " + pr[2]})
+						break
+					}
+				}
+			}
+		}
+		r.Evals(adv)
+		r.Set("hash_collision_adversary", map[string]any{"colliding_pairs": len(pairs), "round_trips": adv})
+	}
 	r.Set("types_exercised", len(types))
 	r.Set("cases_per_type_min_max", minMax(perType))
 	r.Set("value_features_exercised", feats.m)
